@@ -64,12 +64,16 @@ M = [
                                               "        home_cachefile = (Path(utils.CACHE_DIR) / (p.stem + \"_\" + hexhash[:0])).with_suffix(\".pickle\")"),
                                              (HW, "        home_cachefile = (cache_dir / (p.stem + \"_\" + hexhash)).with_suffix(\".pickle\")",
                                               "        home_cachefile = (cache_dir / (p.stem + \"_\" + hexhash[:0])).with_suffix(\".pickle\")")]),
-    ("C17-8-hash-over-file-prefix-only", [(HW, "        hexhash = hashlib.sha256(p.read_bytes()).hexdigest()\n\n        # 1. companion cachefile: same location",
-                                           "        hexhash = hashlib.sha256(p.read_bytes()[:4096]).hexdigest()\n\n        # 1. companion cachefile: same location"),
-                                          (HW, "        hexhash = hashlib.sha256(p.read_bytes()).hexdigest()\n        # 1. companion cachefile: same location",
-                                           "        hexhash = hashlib.sha256(p.read_bytes()[:4096]).hexdigest()\n        # 1. companion cachefile: same location")]),
+    ("C17-8-hash-over-file-prefix-only", [(HW, "                hexhash = hashlib.sha256(content).hexdigest()\n",
+                                           "                hexhash = hashlib.sha256(content[:4096]).hexdigest()\n")]),
     ("C17-9-stale-tmp-cleanup-by-name", [(HW, "        tmpfile = cachefile.with_name(\"{}.{}.tmp\".format(cachefile.name, os.getpid()))\n        try:\n",
                                           "        tmpfile = cachefile.with_name(\"{}.{}.tmp\".format(cachefile.name, os.getpid()))\n        for old in cachefile.parent.glob(cachefile.name + \".*.tmp\"):\n            if old != tmpfile:\n                try:\n                    old.unlink()\n                except OSError:\n                    pass\n        try:\n")]),
+    ("C17-10-cache-write-rehashes-the-file", [(HW, "                    self._write_in_cache(self._path, hexhash)\n",
+                                               "                    self._write_in_cache(self._path)\n")]),
+    ("C17-11-lookup-rehashes-the-file", [(HW, "                cached = self._get_cached(self._path, hexhash)\n",
+                                          "                cached = self._get_cached(self._path)\n"),
+                                         (HW, "                    self._write_in_cache(self._path, hexhash)\n",
+                                          "                    self._write_in_cache(self._path, hashlib.sha256(Path(self._path).read_bytes()).hexdigest())\n")]),
     # ---------------------------------------------------------------- C18
     ("C18-1-runtime-cache-live", [(HW, "                self._data = MachineModel._runtime_cache[self._path]\n",
                                    "                self._data = MachineModel._runtime_cache[self._path]\n                return\n")]),
